@@ -2,7 +2,7 @@
 use std::collections::HashMap;
 use std::panic::{catch_unwind, AssertUnwindSafe};
 
-use ivp::matrix::{lin_solve, lu_decomp, Matrix, MatrixStorage};
+use ivp::matrix::{lin_solve, lin_solve_complex, lu_decomp, lu_decomp_complex, Matrix, MatrixStorage};
 
 use crate::{hx, hxlist, unhx, unlist};
 
@@ -169,6 +169,54 @@ pub fn run_lu(kv: &HashMap<String, String>) -> String {
     }
     out.push_str(&format!("x {}\n", hxlist(&b)));
     let same = before.data.iter().zip(a.data.iter()).all(|(p, q)| p.to_bits() == q.to_bits()) && before.storage == a.storage;
+    out.push_str(&format!("a_untouched {}\n", same));
+    out
+}
+
+/// complex LU: `luc id=.. n=.. iplen=.. ar=.. ai=.. br=.. bi=..` (square n x n, row-major)
+pub fn run_luc(kv: &HashMap<String, String>) -> String {
+    let mut out = String::new();
+    let n: usize = kv["n"].parse().unwrap();
+    let iplen: usize = kv["iplen"].parse().unwrap();
+    let cols: usize = kv.get("cols").map(|c| c.parse().unwrap()).unwrap_or(n);
+    let mut ar = Matrix::from_vec(n, cols, unlist(&kv["ar"]));
+    let mut ai = Matrix::from_vec(n, cols, unlist(&kv["ai"]));
+    let br0 = unlist(&kv["br"]);
+    let bi0 = unlist(&kv["bi"]);
+    let mut ip = vec![7usize; iplen];
+    let res = catch_unwind(AssertUnwindSafe(|| lu_decomp_complex(&mut ar, &mut ai, &mut ip)));
+    match res {
+        Err(_) => return "res panic\n".into(),
+        Ok(Err(e)) => {
+            let s = format!("{:?}", e);
+            let kind = if s.contains("Singular") {
+                "singular"
+            } else if s.contains("NonSquare") {
+                "nonsquare"
+            } else if s.contains("PivotSize") {
+                "pivotsize"
+            } else {
+                "othererr"
+            };
+            return format!("res {}\n", kind);
+        }
+        Ok(Ok(())) => {}
+    }
+    out.push_str("res ok\n");
+    out.push_str(&format!("lur {}\n", hxlist(&ar.data)));
+    out.push_str(&format!("lui {}\n", hxlist(&ai.data)));
+    let nip = if n == 1 { 1 } else { n - 1 };
+    out.push_str(&format!("ip {}\n", ip[..nip].iter().map(|x| x.to_string()).collect::<Vec<_>>().join(",")));
+    let (before_r, before_i) = (ar.clone(), ai.clone());
+    let (mut br, mut bi) = (br0.clone(), bi0.clone());
+    let r = catch_unwind(AssertUnwindSafe(|| lin_solve_complex(&ar, &ai, &mut br, &mut bi, &ip)));
+    if r.is_err() {
+        return out + "solve panic\n";
+    }
+    out.push_str(&format!("xr {}\n", hxlist(&br)));
+    out.push_str(&format!("xi {}\n", hxlist(&bi)));
+    let same = before_r.data.iter().zip(ar.data.iter()).all(|(p, q)| p.to_bits() == q.to_bits())
+        && before_i.data.iter().zip(ai.data.iter()).all(|(p, q)| p.to_bits() == q.to_bits());
     out.push_str(&format!("a_untouched {}\n", same));
     out
 }
